@@ -246,7 +246,7 @@ def build(ex):
 
 
 def replay(ob, repo):
-    if 'remote_context' in ob['site'] or 'C18.L2' in ob.get('text', ''):
+    if 'remote_context' in ob['site'] or 'C18.L' in ob.get('text', ''):
         from pyvc.native import run_script
         r = run_script('c18_native.py', {'lemma': ob['lemma'].split(' ')[0]}, repo, timeout=150)
         return bool(r.get('violates')), r
